@@ -67,6 +67,10 @@ partial def readLong (level : Nat) (bs : List UInt8) (acc : List UInt8) : Option
       | 93 :: rest' => some (acc.reverse, rest')
       | _ => readLong level rest (93 :: acc)
     else readLong level rest (93 :: acc)
+  -- llex.c read_long_string: a line break (`\n`, `\r`, `\r\n` or `\n\r`) is saved as ONE `\n`
+  | 13 :: 10 :: rest => readLong level rest (10 :: acc)
+  | 10 :: 13 :: rest => readLong level rest (10 :: acc)
+  | 13 :: rest => readLong level rest (10 :: acc)
   | b :: rest => readLong level rest (b :: acc)
 
 def utf8Encode (c : Nat) : List UInt8 :=
@@ -238,7 +242,9 @@ partial def lex (bs : List UInt8) (line : Nat) (modes : List Nat) (acc : Array (
         -- a newline directly after the opening bracket is skipped
         let body := match body with
           | 13 :: 10 :: r => r
+          | 10 :: 13 :: r => r
           | 10 :: r => r
+          | 13 :: r => r
           | _ => body
         match readLong level body [] with
         | some (s, r) =>
@@ -937,6 +943,21 @@ partial def statement : P String := do
     return par ["local", par (names.toList.map (·.1)), par values]
   | _ =>
     -- Luau: `type X<..> = T` / `export type X = T` (`type` and `export` are contextual)
+    -- Luau: `const a[: T], b = values` (`const` is contextual)
+    if (← peek) == some (.name "const") then
+      match ← peek2 with
+      | some (.name _) =>
+        advance
+        let typedName : P (String × String) := do
+          let n ← expectName
+          let t ← if ← acceptSym ":" then parseType else pure "-"
+          return (n, t)
+        let mut names := #[← typedName]
+        repeat
+          if ← acceptSym "," then names := names.push (← typedName) else break
+        let values ← if ← acceptSym "=" then exprList else pure []
+        return par ["const", par (names.toList.map fun p => par [p.1, p.2]), par values]
+      | _ => pure ()
     let declaration ← do
       match ← peek, ← peek2 with
       | some (.name "type"), some (.name _) => pure (some "loc")
